@@ -22,6 +22,8 @@ type Interp struct {
 	inited  map[*ssa.Package]bool
 	hpkg    string  // package path of the harness being run (scopes //gosmt:stub)
 	initDepth int
+	ndecode int
+	quiet   int
 	builders map[*value]*builderState
 	events  []value // zzsym.Emit trace (interpreter values of type zzsym.Event)
 	notes   []string
